@@ -35,6 +35,11 @@ func runC09(c *Ctx) {
 		}
 		e := runEffects(c, p, "R09.1", effectRoot{fn: fn, name: name, params: provParams(fn, eng.Shared, eng.Input)}, matchScope, false)
 		total += len(e.Explored())
+		if name == "(*Classifier).Match" {
+			// shared with C04: "returns exactly what it returns when run alone" fails when a wall-clock deadline decides
+			// how fine the diff is - under N concurrent calls the deadline passes earlier (R04.5)
+			checkNondet(c, p, e)
+		}
 		if c.Tier == "thorough" {
 			vtaCrossCheck(c, p, "R09.1", name, fn, e, matchScope)
 		}
